@@ -61,6 +61,9 @@ type Scn struct {
 	// ReceiveOnly: the instance runs in receive-only mode (never uploads). Only the "local writes are not destroyed"
 	// clause applies; any Store or Delete it issues is reported.
 	ReceiveOnly bool `json:"receive_only,omitempty"`
+	// AtStartup: the injection is armed before Sync is started, so that the start-up phases and the very first
+	// SendOnce (initial snapshot of an instance with data and an empty bucket) are covered
+	AtStartup bool `json:"at_startup,omitempty"`
 }
 
 type Inj struct {
@@ -80,6 +83,9 @@ func (s Scn) ID() string {
 	}
 	if s.ReceiveOnly {
 		id += "-recvonly"
+	}
+	if s.AtStartup {
+		id += "-atstartup"
 	}
 	if s.EmptyVal {
 		id += "-empty"
@@ -205,6 +211,33 @@ func (w *world) stageRemoteKind(news, staleTomb bool) string {
 	return name
 }
 
+func (w *world) stageStaleMarkersForLocalWrites() {
+	w.rseq++
+	ts := time.Now()
+	old := uint64(time.Now().Add(-48*time.Hour).UnixNano()) + uint64(w.rseq)
+	s := &wire.Snap{FormatVersion: 3, CompatVersion: 1, Meta: wire.Meta{DatabaseName: dbName, InstanceID: "r", GenerationID: "GX", TimestampNano: uint64(ts.UnixNano())}}
+	byDBI := map[string][]wire.KV{}
+	for _, aw := range w.lastWrites() {
+		if !aw.Del {
+			byDBI[aw.DBI] = append(byDBI[aw.DBI], wire.KV{Key: []byte(aw.Key), TS: old, Flags: 1})
+		}
+	}
+	var names []string
+	for n := range byDBI {
+		names = append(names, n)
+	}
+	sort.Strings(names)
+	for _, n := range names {
+		es := byDBI[n]
+		sort.Slice(es, func(i, j int) bool { return string(es[i].Key) < string(es[j].Key) })
+		s.DBIs = append(s.DBIs, wire.DBI{Name: n, Entries: es})
+	}
+	name := snapshot.Name(dbName, "r", "GX", ts)
+	w.b.Put(name, wire.Gzip(wire.EncodeSnapshot(s)))
+	w.staged = append(w.staged, name)
+	w.s.Note("r", "STAGE "+name+" stale markers for local writes")
+}
+
 // newestOwn decodes the newest blob of instance a.
 func (w *world) newestOwn() (*wire.Snap, string) {
 	var newest string
@@ -287,6 +320,10 @@ func (w *world) checkC09(when string) {
 		}
 		desc := fmt.Sprintf("%s: the loop is idle, the application committed %s %s[%s] in txn %d at %s, but the newest own snapshot %s ", when, aw.Kind, aw.DBI, aw.Key, aw.TxnID, aw.At, name)
 		switch {
+		case !ok && aw.Del && !w.scn.Native && !w.everPublished(aw.DBI, aw.Key):
+			// the key was deleted before any snapshot of this instance carried it (first start): there is nothing
+			// to publish, no other instance can have it from here
+			w.res.Count("deletions_of_never_published_keys", 1)
 		case !ok:
 			w.res.Violate(sig, desc+"does not contain the key", w.witness(when))
 		case w.scn.Native:
@@ -299,6 +336,24 @@ func (w *world) checkC09(when string) {
 			}
 		}
 	}
+}
+
+// everPublished: some snapshot of instance a in the bucket carries the key (live or as a marker).
+func (w *world) everPublished(dbi, key string) bool {
+	for _, n := range w.b.Names() {
+		if !strings.HasPrefix(n, dbName+"__"+w.a.Name+"__") {
+			continue
+		}
+		data, _ := w.b.Get(n)
+		s, err := wire.DecodeBlob(data)
+		if err != nil {
+			continue
+		}
+		if _, ok := inst.StateOfSnap(s)[dbi][key]; ok {
+			return true
+		}
+	}
+	return false
 }
 
 // run executes a scenario; which selects the oracles: "C03", "C09" or both.
@@ -350,10 +405,22 @@ func RunScn(scn Scn, env *runner.Env, res *runner.Result, which string) {
 		}
 		return bucket.Decision{}
 	})
+	const wd = 15 * time.Second
+	arms := []*sched.Arm{}
+	seq := 0
+	if scn.AtStartup {
+		// the commit lands inside the start-up of a first run (data, empty bucket)
+		n := 1
+		seq = 1
+		arms = append(arms, w.s.ArmAt("a", scn.Point, scn.Nth, func(ev sched.Event) { w.commit(scn.Kind, scn.Point+"(start-up)", n) }))
+	}
 	w.loop = sched.Start(a, w.s)
 	defer w.loop.Stop(5 * time.Second)
-	const wd = 15 * time.Second
 	if ok, why := w.loop.WaitQuiescent(nil, 3, wd); !ok {
+		if err, crashed, fin := w.loop.Result(); fin {
+			res.Violate("sync-ended", fmt.Sprintf("Sync ended during start-up (err=%v, crashed=%v)", err, crashed), w.witness("startup"))
+			return
+		}
 		res.Verdict, res.Msg = runner.Inconclusive, "start-up did not reach quiescence: "+why
 		return
 	}
@@ -361,14 +428,50 @@ func RunScn(scn Scn, env *runner.Env, res *runner.Result, which string) {
 		res.Violate("no-startup-snapshot", "an instance started with data and an empty bucket is idle without having uploaded a snapshot", w.witness("startup"))
 		return
 	}
+	if scn.AtStartup {
+		if !w.s.Fired(arms[0]) {
+			res.Count("point_not_reached", 1)
+			return
+		}
+		res.NonTrivial = true
+		res.Add("points_fired", scn.Point+"(start-up)")
+		if which != "C03" && which != "C10" {
+			w.checkC09("first idle state after the start-up commit")
+		}
+		if which != "C09" && which != "C10" {
+			w.checkC03("first idle state after the start-up commit")
+		}
+		w.stageRemote(true)
+		if ok, why := w.loop.WaitQuiescent(w.staged, 3, wd); !ok {
+			if err, crashed, fin := w.loop.Result(); fin {
+				res.Violate("sync-ended", fmt.Sprintf("Sync ended (err=%v, crashed=%v)", err, crashed), w.witness("after follow-up"))
+				return
+			}
+			res.Verdict, res.Msg = runner.Inconclusive, "no quiescence after the follow-up snapshot: "+why
+			return
+		}
+		if which != "C09" && which != "C10" {
+			w.checkC03("after a following remote snapshot was merged")
+		}
+		if which != "C03" && which != "C10" {
+			w.checkC09("after a following remote snapshot was merged")
+		}
+		if which == "C10" {
+			CheckCausalityOf(w.s.Events(), w.a.Name, w.res, w.witness("upload causality"))
+		}
+		return
+	}
 	// ---- the forced schedule
-	arms := []*sched.Arm{}
-	seq := 0
 	mkArm := func(point string, nth int, kind string) {
 		seq++
 		n := seq
 		arms = append(arms, w.s.ArmAt("a", point, nth, func(ev sched.Event) {
 			w.commit(kind, point, n)
+			if scn.Remote == "staletomb-local" && n == 1 {
+				// a remote snapshot whose deletion markers for the keys just written are older than the retention:
+				// stale or not, they are older than the local versions and must not remove them
+				w.stageStaleMarkersForLocalWrites()
+			}
 		}))
 	}
 	mainArmed := make(chan struct{})
